@@ -178,8 +178,38 @@ func (in *Interp) floatBinop(op token.Token, a, b *Term) Value {
 		}
 		return eq
 	}
+	if (!a.IsConst() || !b.IsConst()) && (op == token.LSS || op == token.GTR || op == token.LEQ || op == token.GEQ) {
+		// IEEE ordering, exact on the bit patterns: map sign-magnitude to an unsigned key
+		// (negative values reversed below the positive ones), NaNs compare false, -0 == +0
+		w := a.W
+		expMask, manMask, absMask, sign := uint64(0x7f800000), uint64(0x007fffff), uint64(0x7fffffff), uint64(0x80000000)
+		if w == 64 {
+			expMask, manMask, absMask, sign = 0x7ff0000000000000, 0x000fffffffffffff, 0x7fffffffffffffff, 0x8000000000000000
+		}
+		isNaN := func(x *Term) *Term {
+			return st.BAnd(st.Eq(st.And(x, st.Const(expMask, w)), st.Const(expMask, w)), st.BNot(st.Eq(st.And(x, st.Const(manMask, w)), st.Const(0, w))))
+		}
+		key := func(x *Term) *Term {
+			neg := st.BNot(st.Eq(st.And(x, st.Const(sign, w)), st.Const(0, w)))
+			return st.Ite(neg, st.Not(x), st.Or(x, st.Const(sign, w)))
+		}
+		ordered := st.BAnd(st.BNot(isNaN(a)), st.BNot(isNaN(b)))
+		bothZero := st.Eq(st.And(st.Or(a, b), st.Const(absMask, w)), st.Const(0, w))
+		lt := func(x, y *Term) *Term { return st.BAnd(ordered, st.BAnd(st.BNot(bothZero), st.Ult(key(x), key(y)))) }
+		eq := st.BAnd(ordered, st.BOr(st.Eq(a, b), bothZero))
+		switch op {
+		case token.LSS:
+			return lt(a, b)
+		case token.GTR:
+			return lt(b, a)
+		case token.LEQ:
+			return st.BOr(lt(a, b), eq)
+		default:
+			return st.BOr(lt(b, a), eq)
+		}
+	}
 	if !a.IsConst() || !b.IsConst() {
-		// ordering and arithmetic on symbolic floats would need the floating-point theory
+		// arithmetic on symbolic floats would need the floating-point theory
 		in.unsupported("symbolic float arithmetic/comparison " + op.String())
 	}
 	x, y := in.floatVal(a), in.floatVal(b)
